@@ -252,15 +252,18 @@ func (f *Formatter) formatIfStatement(stmt *ast.IfStatement) string {
 	}
 
 	buf.WriteString(f.formatBlockStatement(stmt.Consequence))
-	if v := f.formatComment(stmt.Consequence.Trailing, "", 0); v != "" {
-		// If comment is inline , concat to the same line
-		if isInlineComment(stmt.Consequence.Trailing) {
-			buf.WriteString(" " + v)
-		} else {
-			// Otherwise, print to the new line
-			buf.WriteString("\n")
-			buf.WriteString(f.indent(stmt.Consequence.Nest-1) + v)
-			buf.WriteString("\n")
+	// Without else if and else, the trailing comment of the consequence is the trailing comment of the statement
+	if len(stmt.Another) > 0 || stmt.Alternative != nil {
+		if v := f.formatComment(stmt.Consequence.Trailing, "", 0); v != "" {
+			// If comment is inline , concat to the same line
+			if isInlineComment(stmt.Consequence.Trailing) {
+				buf.WriteString(" " + v)
+			} else {
+				// Otherwise, print to the new line
+				buf.WriteString("\n")
+				buf.WriteString(f.indent(stmt.Consequence.Nest-1) + v)
+				buf.WriteString("\n")
+			}
 		}
 	}
 
